@@ -156,6 +156,20 @@ class Prov:
                         elif did in derived:
                             src = self.of(args[1], fn, depth + 1, seen)
                             out |= {('ext:' + t[4:]) if t.startswith('lit:') else 'tail:' + t for t in src}
+                if cn in self.fn_of and depth < 6:
+                    # the variable is handed to a helper that fills it through its parameter (out-parameter)
+                    g, gtu = self.fn_of[cn]
+                    gparams = astdb.fn_params(g)
+                    for ai, a_ in enumerate(args):
+                        d_ = astdb.strip(a_, casts=True)
+                        if d_.get('kind') == 'DeclRefExpr' and d_['referencedDecl'].get('id') == vid and ai < len(gparams) \
+                                and 'const' not in gtu.desugar(astdb.qtype(gparams[ai])).split('*')[0]:
+                            w = self.local(gparams[ai], g, depth + 1, seen)
+                            w = {t for t in w if not t.startswith('uninit-local:')}
+                            if w:
+                                if not conditional:
+                                    out = set()
+                                out |= w
                 if cn in ('sprintf', 'snprintf') and args:
                     d = astdb.strip(args[0], casts=True)
                     if d.get('kind') == 'DeclRefExpr' and d['referencedDecl']['id'] == vid:
@@ -230,6 +244,7 @@ def allowed_write_name(tags):
 
 def check_creators(chk, tus, prov):
     n_sites = 0
+    deferred = []
     for tu in tus:
         for fname, f in sorted(tu.functions.items()):
             if not (astdb.file_of(f) or '').startswith(astdb.REPO):
@@ -259,6 +274,13 @@ def check_creators(chk, tus, prov):
                         continue
                     tags = prov.of(args[0], f)
                     ok, why = allowed_write_name(tags)
+                    if not ok and fname in ('wasmCWriteModuleHeader', 'wasmCWriteModuleImplementation') and tags and \
+                            all(t.startswith('uninit-local:') for t in tags):
+                        # the name is computed by a helper into a local of wasmCWriteModule (out-parameter): the set-based provenance
+                        # cannot see through it; R20.5 evaluates exactly these two names on a family of output paths instead
+                        chk.note('R20.1 %s: name provenance %r not followed through the helper; decided by R20.5' % (site, sorted(tags)))
+                        deferred.append(site)
+                        continue
                     chk.expect(ok, 'R20.1', site + ':name',
                                '%s creates/overwrites a file (mode %r) whose name is not one of the translator\'s own outputs: %s'
                                % (fname, mode, why), site, loc, detail_ok=why)
@@ -436,9 +458,8 @@ def check_filter(chk, main_tu, c_tu, it_c):
     chk.extra['filter_cubes'] = total
     chk.sample(dict(rule='R20.4', glob=sorted(pats), lengths_explored='0..20', cubes=total))
     # the writer's format
-    f = c_tu.fn('wasmCWriteImplementationFile')
-    sp = [n for n in walk(astdb.fn_body(f)) if n.get('kind') == 'CallExpr' and astdb.callee_name(n) == 'sprintf']
-    chk.require(len(sp) == 1, 'wasmCWriteImplementationFile has %d sprintf calls' % len(sp))
+    sp, f = naming_sprintf(c_tu)
+    chk.require(len(sp) == 1, 'c.c has %d sprintf calls that build an implementation file name' % len(sp))
     args = astdb.call_args(sp[0])
     fmt = astdb.string_value(args[1])
     m = re.fullmatch(r'%c%0(\d+|\*)(l|ll)?u\.c', fmt or '')
@@ -461,7 +482,8 @@ def check_filter(chk, main_tu, c_tu, it_c):
                site, astdb.loc_str(sp[0]))
     buf = astdb.strip(args[0], casts=True)
     bt = c_tu.desugar(astdb.qtype(buf))
-    mm = re.search(r'\[(\d+)\]', bt)
+    bsize = naming_buffer_size(c_tu)
+    mm = re.search(r'\[(\d+)\]', 'char[%d]' % (bsize + 1)) if bsize is not None else None
     outlen = 1 + max(width, maxdigits) + 2
     chk.expect(mm is not None and int(mm.group(1)) >= outlen + 1, 'R20.4', 'writer-buffer',
                'file name buffer %s cannot hold the %d-character name and its terminator' % (bt, outlen), site, astdb.loc_str(sp[0]))
@@ -470,15 +492,39 @@ def check_filter(chk, main_tu, c_tu, it_c):
                'W2C2_IMPL_FILENAME_LENGTH is %r, the format produces %d characters, the pattern has 13' % (macro, outlen), site)
 
 
+def naming_sprintf(c_tu):
+    """([sprintf call that formats an implementation file name], enclosing function) - wherever the translator keeps it"""
+    hits = []
+    for name, f in c_tu.functions.items():
+        body = astdb.fn_body(f)
+        if body is None:
+            continue
+        for n in walk(body):
+            if n.get('kind') == 'CallExpr' and astdb.callee_name(n) in ('sprintf', '__builtin_sprintf'):
+                a = astdb.call_args(n)
+                fmt = astdb.string_value(a[1]) if len(a) > 1 else None
+                if fmt and re.fullmatch(r'%c%0?(\d+|\*)(l|ll)?u\.c', fmt):
+                    hits.append((n, f))
+    return [h[0] for h in hits], (hits[0][1] if hits else None)
+
+
+def naming_buffer_size(c_tu):
+    """capacity minus one of the array that receives the implementation file name (a local array, or the arrays callers pass)"""
+    from . import c10
+    sp, f = naming_sprintf(c_tu)
+    if len(sp) != 1:
+        return None
+    dst = astdb.call_args(sp[0])[0]
+    size = c10.array_size(dst, c_tu)
+    if size is None:
+        funcs = [(c_tu, g) for g in c_tu.functions.values() if astdb.fn_body(g) is not None]
+        size = c10.param_array_size(dst, f, funcs)
+    return size - 1 if size is not None else None
+
+
 def filename_length_macro(c_tu):
-    """value of W2C2_IMPL_FILENAME_LENGTH as used in the buffer declaration char filename[LEN+1]"""
-    f = c_tu.fn('wasmCWriteImplementationFile')
-    for n in walk(astdb.fn_body(f)):
-        if n.get('kind') == 'VarDecl' and n.get('name') == 'filename':
-            mm = re.search(r'\[(\d+)\]', c_tu.desugar(astdb.qtype(n)))
-            if mm:
-                return int(mm.group(1)) - 1
-    return None
+    """value of W2C2_IMPL_FILENAME_LENGTH as used in the declaration char filename[LEN+1] of the name buffer"""
+    return naming_buffer_size(c_tu)
 
 
 def _example(cube):
@@ -514,6 +560,16 @@ def string_leafs():
         i = s_.rfind(chr(args[1] & 0xff))
         return 0 if i < 0 else Ptr(args[0].c, args[0].k + i)
 
+    def strchr(interp, args, node):
+        s_ = _cstr(interp, args[0])
+        if not isinstance(s_, str):
+            raise pe.PEError('strchr of a non-concrete string')
+        ch = args[1] & 0xff
+        i = len(s_) if ch == 0 else s_.find(chr(ch))
+        if i < 0:
+            return 0
+        return Ptr(args[0].c, args[0].k + i) if isinstance(args[0], Ptr) else s_[i:]
+
     def basename(interp, args, node):
         p = args[0]
         s_ = _cstr(interp, p)
@@ -548,7 +604,8 @@ def string_leafs():
         a, b = _cstr(interp, args[0]), _cstr(interp, args[1])
         put(interp, args[0], a + b)
         return args[0]
-    return {'strcpy': strcpy, '__builtin_strcpy': strcpy, 'strrchr': strrchr, '__builtin_strrchr': strrchr, 'basename': basename,
+    return {'strcpy': strcpy, '__builtin_strcpy': strcpy, 'strrchr': strrchr, '__builtin_strrchr': strrchr, 'strchr': strchr,
+            '__builtin_strchr': strchr, 'basename': basename,
             '__xpg_basename': basename, '__gnu_basename': basename, 'memmove': memmove, '__builtin_memmove': memmove, 'memcpy': memmove,
             'strlen': strlen, '__builtin_strlen': strlen, 'strcat': strcat}
 
